@@ -159,7 +159,8 @@ def ensure_facts(repo, quiet=False):
             (os.path.join(d, f) for f in os.listdir(d) if f.endswith(".jsonl")),
             key=lambda p: os.path.getmtime(p),
         )
-        for p in fs[:-12]:
+        keep = int(os.environ.get("TCVERIF_KEEP_FACTS", "12"))
+        for p in fs[:-keep]:
             for q in (p, p + ".pickle"):
                 try:
                     os.unlink(q)
